@@ -503,6 +503,9 @@ func main() {
 			vlqBeyond()
 		}
 	})
+	if !ctx.IsChild() {
+		ctx.RacePairs("smf-write")
+	}
 	var planInfo []map[string]interface{}
 	for _, p := range pl {
 		planInfo = append(planInfo, map[string]interface{}{
